@@ -87,17 +87,20 @@ def _match_entries(entries, site, facts=None):
     return exact + loose
 
 
-def _subst_arg(spec, args, pnames=None):
+def _subst_arg(spec, args, pnames=None, base_params=None):
     if isinstance(spec, int):
         return ("const", spec)
     if isinstance(spec, str) and spec.startswith("arg"):
         return args[int(spec[3:])]
     if isinstance(spec, str) and spec.startswith("p:"):
         if not pnames or spec[2:] not in pnames:
+            # a renamed parameter: fall back to the position the name had in the baseline signature
+            if base_params and spec[2:] in base_params and len(base_params) == len(args):
+                return args[base_params.index(spec[2:])]
             raise KeyError(spec)
         return args[pnames.index(spec[2:])]
     if isinstance(spec, list):
-        return (spec[0],) + tuple(_subst_arg(x, args, pnames) for x in spec[1:])
+        return (spec[0],) + tuple(_subst_arg(x, args, pnames, base_params) for x in spec[1:])
     raise ValueError(spec)
 
 
@@ -183,14 +186,17 @@ def run(run, ctx, fns, label, restrict=None):
             for req in p["requires"]:
                 rel = req[0]
                 try:
-                    a = _subst_arg(req[1], args, pnames)
-                    b = _subst_arg(req[2], args, pnames)
+                    import norm as _norm
+                    _norm.baseline()
+                    bp = (_norm._BASE_PARAMS or {}).get(cs)
+                    a = _subst_arg(req[1], args, pnames, bp)
+                    b = _subst_arg(req[2], args, pnames, bp)
                 except KeyError as ex:
                     run.violation("PANIC", label, "precondition-anchor|%s|%s" % (cs, ex), "src", "anchor-missing: %s no longer has the parameter %s its audited precondition is stated over" % (cs, ex))
                     continue
                 # a caller that forwards its own parameter unchanged inherits the documented precondition
                 if p.get("forwarded_ok"):
-                    fa = _subst_arg(req[1], args, pnames)
+                    fa = _subst_arg(req[1], args, pnames, bp)
                     if fa[0] == "var" and fa[2] <= body.argc and finfo.get("exported"):
                         continue
                     if fa == ("const", 0):
